@@ -25,7 +25,9 @@ CONSTANTS
   Conns,          \* connection slots (a slot can be reused after its connection is gone)
   Peers,          \* peer addresses explored by model checking
   Paths,          \* request path classes explored by model checking
-  Configs,        \* allowlist configurations explored by model checking (set of sequences of entries)
+  Configs,        \* builder call histories explored by model checking (set of sequences of calls)
+  ListenerSetterResetsAllowlist,  \* design mutation (witness configs only): with_http_listener replaces the whole listener
+                  \* configuration, allowlist included, so entries added before it are lost
   PlainAccepted,  \* FALSE: add_allowed_address as coded today (finding CF18); TRUE: as documented / repaired
   MaxFaults, MaxGets, MaxBumps,   \* bounds of the exhaustive scopes
   MaxQ,           \* requests a client keeps outstanding on one connection (bound of the exhaustive scopes)
@@ -36,7 +38,8 @@ CONSTANTS
 
 VARIABLES
   phase,    \* "none" (no exporter yet) | "run"
-  entries,  \* the allowlist entries given to the builder, in order
+  hist,     \* the calls made on the builder before build(), in order: with_http_listener / add_allowed_address(e) / other setters
+  entries,  \* the allowlist entries the builder holds at build(), in order
   built,    \* [ok, bad]: result of the builder calls; bad = index of the first rejected entry (0 = none)
   allow,    \* what the exporter holds: [some |-> BOOLEAN, nets |-> sequence of [a, n]]
   alive,    \* the accept loop is running
@@ -47,7 +50,7 @@ VARIABLES
   nf, ng, nb,   \* fault / GET / bump budget used (bounds for model checking)
   dev_plain \* named deviation CF18: an entry written as a plain address was rejected by the builder
 
-vars == <<phase, entries, built, allow, alive, conn, ctr, last, busy, nf, ng, nb, dev_plain>>
+vars == <<phase, hist, entries, built, allow, alive, conn, ctr, last, busy, nf, ng, nb, dev_plain>>
 
 -----------------------------------------------------------------------------
 (* addresses, networks, entries *)
@@ -82,6 +85,18 @@ FirstBad(es) == LET B == {i \in DOMAIN es : ~ParseEntry(es[i]).ok}
 (* allowed_addresses.get_or_insert(vec![]).push(net): None iff no entry was added *)
 AllowOf(es) == [some |-> es # <<>>, nets |-> [i \in DOMAIN es |-> ParseEntry(es[i]).net]]
 NoAllow == [some |-> FALSE, nets |-> <<>>]
+
+(* builder call histories: [op |-> "listen"] (with_http_listener(addr)), [op |-> "allow", e |-> entry] (add_allowed_address),
+   [op |-> "other"] (any setter that does not concern the exporter configuration).  The builder keeps the allowlist in a
+   field of its own: with_http_listener only replaces the listen address, in whatever order the calls are made. *)
+IsAllow(c) == c.op = "allow"
+IsListen(c) == c.op = "listen"
+LastListen(h) == LET L == {i \in DOMAIN h : IsListen(h[i])} IN IF L = {} THEN 0 ELSE CHOOSE i \in L : \A j \in L : j <= i
+AllowsFrom(h, k) == LET t == SelectSeq(SubSeq(h, k + 1, Len(h)), IsAllow) IN [i \in DOMAIN t |-> t[i].e]
+(* every entry the user added, in order: what the property calls "the listed networks" *)
+Listed(h) == AllowsFrom(h, 0)
+(* what the builder hands to the exporter *)
+InForce(h) == IF ListenerSetterResetsAllowlist THEN AllowsFrom(h, LastListen(h)) ELSE Listed(h)
 
 (* check_tcp_allowed *)
 Allowed(al, p) == IF ~al.some THEN TRUE ELSE \E i \in DOMAIN al.nets : Contains(al.nets[i], p)
@@ -129,18 +144,22 @@ PendingClean(c) == conn[c].st = "open" /\ conn[c].clean /\ ~conn[c].sdead /\ Hea
 
 -----------------------------------------------------------------------------
 (* configuration: the builder calls + build() *)
-Setup(es) ==
-  /\ entries' = es
-  /\ built' = [ok |-> FirstBad(es) = 0, bad |-> FirstBad(es)]
-  /\ allow' = IF FirstBad(es) = 0 THEN AllowOf(es) ELSE NoAllow
-  /\ dev_plain' = (FirstBad(es) # 0 /\ es[FirstBad(es)].k = "plain")
+Setup(h) ==
+  LET es == Listed(h)            \* every add_allowed_address call parses its argument; the chain stops at the first Err
+      fb == FirstBad(es)
+  IN
+  /\ hist' = h
+  /\ entries' = InForce(h)
+  /\ built' = [ok |-> fb = 0, bad |-> fb]
+  /\ allow' = IF fb = 0 THEN AllowOf(InForce(h)) ELSE NoAllow
+  /\ dev_plain' = (fb # 0 /\ es[fb].k = "plain")
   /\ phase' = "run"
-  /\ alive' = (FirstBad(es) = 0)      \* no exporter without a successful build
+  /\ alive' = (fb = 0)      \* no exporter without a successful build
   /\ conn' = [c \in Conns |-> Free]
   /\ ctr' = 0 /\ last' = NoResp /\ busy' = 0 /\ nf' = 0 /\ ng' = 0 /\ nb' = 0
 
 Running == phase = "run" /\ built.ok
-Keep == UNCHANGED <<phase, entries, built, allow, dev_plain>>
+Keep == UNCHANGED <<phase, hist, entries, built, allow, dev_plain>>
 Quiet == last' = NoResp
 
 (* client side *)
@@ -225,7 +244,7 @@ Serve(c) ==
   /\ Answer(c) \/ DropOnEof(c) \/ BadRequest(c) \/ PeerGone(c)
   /\ Keep /\ UNCHANGED <<ctr, nf, ng, nb>>
 
-Configure == phase = "none" /\ \E es \in Configs : Setup(es)
+Configure == phase = "none" /\ \E h \in Configs : Setup(h)
 Next ==
   \/ Configure
   \/ \E c \in Conns :
@@ -237,7 +256,7 @@ Next ==
   \/ AcceptError
 
 Init ==
-  /\ phase = "none" /\ entries = <<>> /\ built = [ok |-> FALSE, bad |-> 0] /\ allow = NoAllow /\ alive = FALSE
+  /\ phase = "none" /\ hist = <<>> /\ entries = <<>> /\ built = [ok |-> FALSE, bad |-> 0] /\ allow = NoAllow /\ alive = FALSE
   /\ conn = [c \in Conns |-> Free] /\ ctr = 0 /\ last = NoResp /\ busy = 0 /\ nf = 0 /\ ng = 0 /\ nb = 0
   /\ dev_plain = FALSE
 
@@ -248,7 +267,7 @@ FairSpec == Spec /\ \A c \in Conns : WF_vars(Accept(c)) /\ WF_vars(Serve(c))
 (* the property *)
 TypeOK ==
   /\ phase \in {"none", "run"} /\ alive \in BOOLEAN /\ dev_plain \in BOOLEAN /\ ctr \in Nat
-  /\ built.ok \in BOOLEAN /\ built.bad \in 0..Len(entries)
+  /\ built.ok \in BOOLEAN /\ built.bad \in 0..Len(Listed(hist))
   /\ \A c \in Conns : /\ conn[c].st \in {"free", "open", "gone"}
                       /\ conn[c].acc \in BOOLEAN /\ conn[c].allowed \in BOOLEAN /\ conn[c].eof \in BOOLEAN
                       /\ conn[c].sdead \in BOOLEAN /\ conn[c].clean \in BOOLEAN
@@ -256,28 +275,30 @@ TypeOK ==
 
 (* entries in the documented syntax (plain address or CIDR) are accepted -- or it is exactly deviation CF18 *)
 InvDocumentedSyntax ==
-  phase = "run" /\ (\A i \in DOMAIN entries : Documented(entries[i])) => built.ok \/ dev_plain
+  phase = "run" /\ (\A i \in DOMAIN Listed(hist) : Documented(Listed(hist)[i])) => built.ok \/ dev_plain
 InvStrictSyntax == ~dev_plain
 (* the builder rejects what is not an address or a subnet, at the first such entry *)
 InvBuildResult ==
   phase = "run" => /\ built.ok = (built.bad = 0)
-                   /\ (built.bad # 0 /\ ~dev_plain => ~Documented(entries[built.bad]))
-                   /\ \A i \in 1..(IF built.bad = 0 THEN Len(entries) ELSE built.bad - 1) : Documented(entries[i])
+                   /\ (built.bad # 0 /\ ~dev_plain => ~Documented(Listed(hist)[built.bad]))
+                   /\ \A i \in 1..(IF built.bad = 0 THEN Len(Listed(hist)) ELSE built.bad - 1) : Documented(Listed(hist)[i])
 
+(* every entry added to the builder is in force at build(), wherever in the call chain the listen address was set *)
+InvAllowlistInForce == phase = "run" /\ built.ok => entries = Listed(hist)
 (* a request on a connection without client-side faults gets exactly: 403/empty iff an allowlist is configured and the
    peer is in none of its networks; otherwise 200 with OK on /health and a current rendering elsewhere *)
 InvDecision ==
   last.c # 0 /\ last.clean =>
-    IF Denied(entries, last.peer) THEN last.r = R403
+    IF Denied(Listed(hist), last.peer) THEN last.r = R403
     ELSE /\ last.r.st = 200
          /\ IsHealth(last.path) => last.r.body = "ok"
          /\ ~IsHealth(last.path) => last.r.body = "expo" /\ last.lo <= last.r.v /\ last.r.v <= ctr
 (* whatever the client did to its connection: a peer outside every listed network never gets anything but an empty body *)
 InvNoLeak ==
-  last.c # 0 /\ Denied(entries, last.peer) => last.r.body = "empty" /\ last.r.st # 200
+  last.c # 0 /\ Denied(Listed(hist), last.peer) => last.r.body = "empty" /\ last.r.st # 200
 (* the decision the server holds for an accepted open connection is the one the configuration prescribes *)
 InvPerConnection ==
-  \A c \in Conns : conn[c].st = "open" /\ conn[c].acc => (conn[c].allowed = ~Denied(entries, conn[c].peer))
+  \A c \in Conns : conn[c].st = "open" /\ conn[c].acc => (conn[c].allowed = ~Denied(Listed(hist), conn[c].peer))
 (* the two readings of containment agree (exhaustive scopes only: arithmetic on W bits) *)
 InvContainsAgree ==
   phase = "run" /\ built.ok /\ (\A c \in Conns : conn[c].st = "free") =>
